@@ -4,12 +4,16 @@
 //  (a2) every text of the statement's text domain is written by the real AttributedItem::dumpString
 //      and split again;
 //  (b) every definition file of a bounded grammar is loaded, dumped, reloaded and dumped again:
-//      the reloaded messages must have identical attributes and the second dump must equal the first.
+//      the reloaded messages must have identical attributes (read from the objects, including the effective
+//      divisor and the decoded text of a fixed sample telegram) and the second dump must equal the first.
+//      Sweep 3 (divisors on references to templates that carry a divisor, in every field order) runs every
+//      file in a forked child, because derived number types are cached process-wide in DataTypeList.
 #include <algorithm>
 #include <deque>
 #include <functional>
 #include <memory>
 #include <sstream>
+#include <sys/wait.h>
 #include "lib/ebus/message.h"
 #include "lib/ebus/data.h"
 #include "lib/ebus/filereader.h"
@@ -134,6 +138,14 @@ static const char* TEMPLATES[] = {
   "onoff,UCH,0=off;1=on,,state",
   "tt,D2C,,C,temp",
   "ts,tt;onoff",
+  // templates that carry a divisor themselves (sweep 3)
+  "tenth,UCH,10,bar,pressure",
+  "cent,UIN,100",
+  "recip,UIN,-10",
+  "recip5,UCH,-5",
+  "t16,D2C,10",
+  "dset,tenth;cent",
+  "rset,recip;recip5",
 };
 
 struct FKind { const char* type; const char* dv; const char* cls; };
@@ -144,8 +156,27 @@ static const FKind FKINDS[] = {
   {"UCH", "0=off;1=on", "values"}, {"BI0:2", "0=a;1=b;2=c", "values"},
   {"UCH", "=5", "constant"}, {"STR:2", "==ab", "constant"},
   {"tt", "", "template"}, {"ts", "", "template"}, {"tt", "10", "template"},
+  // ---- sweep 3 only: references to templates with a divisor, with a further divisor (product a power of ten
+  //      or not, positive and reciprocal), template sets with divisor, a value list template as is ...
+  {"tenth", "", "tref"}, {"tenth", "10", "tref"}, {"tenth", "3", "tref"}, {"tenth", "100", "tref"},
+  {"cent", "10", "tref"}, {"cent", "3", "tref"},
+  {"recip", "", "tref"}, {"recip", "-2", "tref"}, {"recip", "-10", "tref"},
+  {"recip5", "-2", "tref"},
+  {"t16", "", "tref"}, {"t16", "10", "tref"},
+  {"dset", "", "tsetref"}, {"dset", "10", "tsetref"}, {"dset", "3", "tsetref"},
+  {"rset", "", "tsetref"}, {"rset", "-2", "tsetref"},
+  {"onoff", "", "tvalues"},
+  {"tenth", "-2", "tref"}, {"recip", "2", "tref"},   // sign combinations the loader refuses (counted)
+  // ... and the same effective types created directly from the root type (before / after the reference)
+  {"UCH", "10", "direct"}, {"UCH", "100", "direct"}, {"UCH", "30", "direct"}, {"UCH", "1000", "direct"},
+  {"UIN", "100", "direct"}, {"UIN", "1000", "direct"}, {"UIN", "300", "direct"},
+  {"UIN", "-10", "direct"}, {"UIN", "-20", "direct"}, {"UIN", "-100", "direct"},
+  {"UCH", "-5", "direct"}, {"UCH", "-10", "direct"},
+  {"D2C", "10", "direct"}, {"D2C", "100", "direct"},
 };
-static const size_t NFK = sizeof(FKINDS) / sizeof(FKINDS[0]);
+static const size_t NFK_ALL = sizeof(FKINDS) / sizeof(FKINDS[0]);
+static const size_t NFK = 18;        // kinds of sweeps 1 and 2
+static const size_t NFK_DIV0 = 18;   // first kind of sweep 3
 static const char* MKINDS[] = {"r", "r1", "r5", "r9", "w", "u", "uw", "r2", "r3", "r4", "r6", "r7", "r8"};
 static const size_t NMK_QUICK = 7, NMK = 13;
 struct Addr { const char* qq; const char* zz; };
@@ -159,6 +190,9 @@ struct FileSpec {
   size_t mk, addr, id;
   string comment;
   vector<FieldSpec> fields;
+  bool pristine = false;   // run in a forked child with an untouched DataTypeList cache
+  FileSpec() : mk(0), addr(0), id(0) {}
+  FileSpec(size_t m, size_t a, size_t i, const string& c, const vector<FieldSpec>& f) : mk(m), addr(a), id(i), comment(c), fields(f) {}
 };
 
 static string fileText(const FileSpec& f) {
@@ -176,7 +210,7 @@ static string fileText(const FileSpec& f) {
 
 // case string: m=<mk>;a=<addr>;i=<id>;c=<hex comment>;f=<kind><part><n|u>.<hex unit>.<hex comment>/...
 static string caseOf(const FileSpec& f) {
-  string s = "k=file;m=" + std::to_string(f.mk) + ";a=" + std::to_string(f.addr) + ";i=" + std::to_string(f.id) + ";c=" + hexs(f.comment) + ";f=";
+  string s = string(f.pristine ? "k=pfile" : "k=file") + ";m=" + std::to_string(f.mk) + ";a=" + std::to_string(f.addr) + ";i=" + std::to_string(f.id) + ";c=" + hexs(f.comment) + ";f=";
   for (size_t i = 0; i < f.fields.size(); i++) {
     auto& fs = f.fields[i];
     if (i) s += "/";
@@ -197,7 +231,7 @@ static bool parseFileCase(std::map<string, string>& m, FileSpec* f) {
     while (p < tok.size() && isdigit((unsigned char)tok[p])) p++;
     if (p == 0 || p >= tok.size()) return false;
     fs.kind = (size_t)atoi(tok.substr(0, p).c_str());
-    if (fs.kind >= NFK) return false;
+    if (fs.kind >= NFK_ALL) return false;
     fs.part = tok[p];
     vector<string> parts;
     std::istringstream ps(tok.substr(p + 1));
@@ -259,6 +293,32 @@ static Attrs messageAttrs(const Message* m) {
     fieldAttrs(sf, 0, &a);
   }
   return a;
+}
+
+// decoded text of a fixed sample telegram (same bytes for both generations): the data of the message as a
+// client sees it; result code and text are compared, whatever they are
+static string sampleDecode(Message* m) {
+  MasterSymbolString ms;
+  SlaveSymbolString ss;
+  ms.push_back(0x31);
+  ms.push_back(m->getDstAddress() == SYN ? (symbol_t)0x08 : m->getDstAddress());
+  const vector<symbol_t>& id = m->getCount() > 1 ? static_cast<ChainedMessage*>(m)->m_ids[0] : m->m_id;
+  ms.push_back(id[0]); ms.push_back(id[1]);
+  ms.push_back(0);
+  for (size_t i = 2; i < id.size(); i++) ms.push_back(id[i]);
+  ss.push_back(0);
+  for (unsigned i = 0; i < 24; i++) {   // valid BCD digits, valid date 11.12.13
+    unsigned v = 11 + i;
+    symbol_t b = (symbol_t)(((v / 10) << 4) | (v % 10));
+    ms.push_back(b); ss.push_back(b);
+  }
+  ms.adjustHeader(); ss.adjustHeader();
+  m->m_lastMasterData = ms;
+  m->m_lastSlaveData = ss;
+  std::ostringstream out;
+  result_t r = m->decodeLastData(pt_any, false, nullptr, -1, OF_NAMES, &out);
+  R.transitions++;
+  return string(getResultCode(r)) + ": " + out.str();
 }
 
 struct Gen {
@@ -331,7 +391,8 @@ static int runFile(Ctx* c, const FileSpec& f) {
     Attrs a = messageAttrs(g0.msgs[0]);
     for (auto& kv : a) if (kv.first == "comment" && kv.second != f.comment)
       report(c, string("C19/load-text/message-comment/") + mcls, "message comment written as " + vis(f.comment) + " loaded as " + vis(kv.second), cs);
-    if (f.fields.size() == 1 && string(FKINDS[f.fields[0].kind].cls) != "template") {
+    // (a template reference inherits unit and comment of the template: not compared with the written text)
+    if (f.fields.size() == 1 && FKINDS[f.fields[0].kind].cls[0] != 't') {
       for (auto& kv : a) {
         if (kv.first == "field0.unit" && kv.second != f.fields[0].unit) report(c, string("C19/load-text/field-unit/") + FKINDS[f.fields[0].kind].cls, "unit written as " + vis(f.fields[0].unit) + " loaded as " + vis(kv.second), cs);
         if (kv.first == "field0.comment" && kv.second != f.fields[0].comment) report(c, string("C19/load-text/field-comment/") + FKINDS[f.fields[0].kind].cls, "comment written as " + vis(f.fields[0].comment) + " loaded as " + vis(kv.second), cs);
@@ -357,6 +418,8 @@ static int runFile(Ctx* c, const FileSpec& f) {
   }
   for (size_t i = 0; i < g0.msgs.size(); i++) {
     Attrs a0 = messageAttrs(g0.msgs[i]), a1 = messageAttrs(g1.msgs[i]);
+    a0.push_back({"decoded-sample", sampleDecode(g0.msgs[i])});
+    a1.push_back({"decoded-sample", sampleDecode(g1.msgs[i])});
     if (c->log) for (auto& kv : a0) printf("  %s: %s\n", kv.first.c_str(), vis(kv.second).c_str());
     std::map<string, string> m1(a1.begin(), a1.end());
     bool countDiffers = a0.size() != a1.size();
@@ -365,13 +428,89 @@ static int runFile(Ctx* c, const FileSpec& f) {
       string v1 = it == m1.end() ? "<missing>" : it->second;
       if (v1 != kv.second) {
         if (countDiffers && kv.first != "fieldcount") continue;   // report the field count only
-        report(c, "C19/attr-changed/" + stripIndex(kv.first) + "/" + (fieldClass(f, kv.first) == "message" ? mcls : fieldClass(f, kv.first)),
+        string cls = kv.first == "decoded-sample" ? (f.fields.empty() ? string(mcls) : string(FKINDS[f.fields[0].kind].cls))
+                     : fieldClass(f, kv.first) == "message" ? string(mcls) : fieldClass(f, kv.first);
+        report(c, "C19/attr-changed/" + stripIndex(kv.first) + "/" + cls,
                kv.first + " is " + vis(kv.second) + " after load, " + vis(v1) + " after dump and reload", cs);
       }
     }
   }
   if (g1.dump != g0.dump) {
     report(c, string("C19/dump-not-idempotent/") + mcls + "/" + (f.fields.empty() ? "nofield" : FKINDS[f.fields[0].kind].cls), "dump(load(dump(M))) differs from dump(M)", cs);
+  }
+  return 1;
+}
+
+static bool loadTemplates() {
+  g_templates = new DataFieldTemplates();
+  string text = "\n";
+  for (auto t : TEMPLATES) text += string(t) + "\n";
+  std::istringstream is(text);
+  string err;
+  result_t r = g_templates->readFromStream(&is, "c19tpl", 0, false, nullptr, &err);
+  if (r != RESULT_OK) { fprintf(stderr, "templates: %s %s\n", getResultCode(r), err.c_str()); return false; }
+  return true;
+}
+
+static string oneLine(const string& s) {
+  string o;
+  for (char ch : s) o += (ch == '\n' || ch == '\t' || ch == '\r') ? ' ' : ch;
+  return o;
+}
+
+// run one file in a forked child: the child has never touched DataTypeList (the parent must not have either),
+// loads the templates itself and reports counters / violations through a pipe.
+// log: the child prints the observation log itself and its exit code is the verdict (replay)
+static int runFileInChild(const FileSpec& f, bool log) {
+  int fd[2];
+  if (pipe(fd) != 0) { perror("pipe"); exit(4); }
+  fflush(stdout);
+  pid_t pid = fork();
+  if (pid < 0) { perror("fork"); exit(4); }
+  if (pid == 0) {
+    close(fd[0]);
+    R.violations.clear(); R.counters.clear(); R.distinctSet.clear();
+    R.evaluations = R.transitions = R.tracesValidated = 0;
+    if (!loadTemplates()) _exit(5);
+    Ctx c; c.log = log;
+    runFile(&c, f);
+    if (log) { printf(c.violated ? "VIOLATES\n" : "OK\n"); fflush(stdout); _exit(c.violated ? 1 : 0); }
+    std::ostringstream os;
+    os << "N\t" << R.evaluations << "\t" << R.transitions << "\t" << R.tracesValidated << "\n";
+    for (auto& kv : R.counters) os << "C\t" << oneLine(kv.first) << "\t" << kv.second << "\n";
+    for (uint64_t h : R.distinctSet) os << "D\t" << h << "\n";
+    for (auto& kv : R.violations) os << "V\t" << kv.first << "\t" << oneLine(kv.second.detail) << "\t" << kv.second.rcase << "\n";
+    string out = os.str();
+    size_t off = 0;
+    while (off < out.size()) { ssize_t w = write(fd[1], out.data() + off, out.size() - off); if (w <= 0) break; off += (size_t)w; }
+    close(fd[1]);
+    _exit(0);
+  }
+  close(fd[1]);
+  string in;
+  char buf[4096];
+  ssize_t n;
+  while ((n = read(fd[0], buf, sizeof(buf))) > 0) in.append(buf, (size_t)n);
+  close(fd[0]);
+  int st = 0;
+  waitpid(pid, &st, 0);
+  if (log) return WIFEXITED(st) ? WEXITSTATUS(st) : 3;
+  if (!WIFEXITED(st) || WEXITSTATUS(st) != 0) {
+    R.evaluations++;
+    R.violation("C19/child-crashed/" + string(f.fields.empty() ? "nofield" : FKINDS[f.fields[0].kind].cls),
+                "load/dump/reload of a definition file ended the process (status " + std::to_string(st) + ")", caseOf(f));
+    return 0;
+  }
+  std::istringstream is(in);
+  string line;
+  while (getline(is, line)) {
+    vector<string> t;
+    size_t pos = 0;
+    while (true) { size_t e = line.find('\t', pos); t.push_back(line.substr(pos, e == string::npos ? string::npos : e - pos)); if (e == string::npos) break; pos = e + 1; }
+    if (t[0] == "N" && t.size() >= 4) { R.evaluations += strtoull(t[1].c_str(), 0, 10); R.transitions += strtoull(t[2].c_str(), 0, 10); R.tracesValidated += strtoull(t[3].c_str(), 0, 10); }
+    else if (t[0] == "C" && t.size() >= 3) R.count(t[1], strtoull(t[2].c_str(), 0, 10));
+    else if (t[0] == "D" && t.size() >= 2) R.distinct(strtoull(t[1].c_str(), 0, 10));
+    else if (t[0] == "V" && t.size() >= 4) R.violation(t[1], t[2], t[3]);
   }
   return 1;
 }
@@ -395,9 +534,16 @@ static int replay(const string& cstr) {
     printf(r.empty() ? "OK\n" : "VIOLATES %s\n", r.c_str());
     return r.empty() ? 0 : 1;
   }
+  if (k == "pfile") {
+    FileSpec f;
+    if (!parseFileCase(m, &f)) { printf("bad case\n"); return 2; }
+    f.pristine = true;
+    return runFileInChild(f, true);
+  }
   if (k == "file") {
     FileSpec f;
     if (!parseFileCase(m, &f)) { printf("bad case\n"); return 2; }
+    if (!loadTemplates()) return 5;
     Ctx c; c.log = true;
     runFile(&c, f);
     printf(c.violated ? "VIOLATES\n" : "OK\n");
@@ -410,15 +556,6 @@ static int replay(const string& cstr) {
 int main(int argc, char** argv) {
   vp::Args A = vp::parseArgs(argc, argv);
   setFacilitiesLogLevel(1 << lf_COUNT, ll_none);
-  g_templates = new DataFieldTemplates();
-  {
-    string text = "\n";
-    for (auto t : TEMPLATES) text += string(t) + "\n";
-    std::istringstream is(text);
-    string err;
-    result_t r = g_templates->readFromStream(&is, "c19tpl", 0, false, nullptr, &err);
-    if (r != RESULT_OK) { fprintf(stderr, "templates: %s %s\n", getResultCode(r), err.c_str()); return 5; }
-  }
   // reference encoder self-test
   if (refEncodeLine({"a", "b,c", "d\"e", ""}) != "a,\"b,c\",\"d\"\"e\"," || refEncodeField("\"") != "\"\"\"\"") { fprintf(stderr, "reference encoder self-test failed\n"); return 5; }
   if (A.replay) return replay(A.replayCase);
@@ -427,6 +564,41 @@ int main(int argc, char** argv) {
   uint64_t idx = 0;
   bool stop = false;
   auto mine = [&]() { return (int)(idx++ % (uint64_t)A.nparts) == A.part; };
+
+  // ---- (b) sweep 3, first of all: this process has not touched DataTypeList yet, so every forked child starts
+  //      with a pristine derived-type cache.  Field lists = all sequences (every order) of 1..2 (thorough 3)
+  //      items out of: references to templates that carry a divisor with a further divisor, template sets with
+  //      divisor, a value list template, and the same effective types defined directly on the root type.
+  {
+    size_t maxLen = (size_t)A.getInt("divfields", th ? 3 : 2);
+    const size_t shapes[][3] = {{0, 0, 2}, {4, 2, 1}};   // r to 08 with ID 0d0100 (slave data), w to broadcast (master data)
+    vector<size_t> cur;
+    uint64_t nfiles = 0;
+    std::function<void()> rec = [&]() {
+      if (stop) return;
+      if (!cur.empty()) {
+        for (auto& sh : shapes) {
+          if (!mine()) continue;
+          if (R.expired()) { stop = true; return; }
+          FileSpec f(sh[0], sh[1], sh[2], "", {});
+          f.pristine = true;
+          for (size_t i = 0; i < cur.size(); i++) {
+            char nm[8]; snprintf(nm, sizeof(nm), "v%u", (unsigned)i);
+            f.fields.push_back(FieldSpec{cur[i], 'd', nm, i == 0 ? "mbar" : "", ""});
+          }
+          runFileInChild(f, false);
+          nfiles++;
+        }
+      }
+      if (cur.size() >= maxLen) return;
+      for (size_t k = NFK_DIV0; k < NFK_ALL; k++) { cur.push_back(k); rec(); cur.pop_back(); }
+    };
+    rec();
+    R.count("pristine_child_files", nfiles);
+    FileSpec ex(0, 0, 2, "", {FieldSpec{NFK_DIV0 + 1, 'd', "v0", "mbar", ""}, FieldSpec{NFK_DIV0 + 21, 'd', "v1", "", ""}});
+    R.sample("(b) sweep 3, each file in a forked child with a pristine type cache, templates tenth=UCH/10, recip=UIN/-10, ...: " + fileText(ex).substr(1));
+  }
+  if (!loadTemplates()) return 5;
 
   // ---- (a) reference encoder -> splitFields
   {
